@@ -102,7 +102,14 @@ func (ls lockSet) sorted() []heldLock {
 	return ded
 }
 
+type acqRow struct {
+	Fn   string `json:"fn"`
+	Lock string `json:"lock"`
+	Excl bool   `json:"excl"`
+}
+
 type accessWalker struct {
+	acqs    *[]acqRow
 	pi      *pkgInfo
 	rel     string
 	fn      string
@@ -301,8 +308,10 @@ func (w *accessWalker) stmt(s ast.Stmt, held lockSet) lockSet {
 	if name, op, ok := lockOp(w.pi, s); ok {
 		switch op {
 		case "Lock":
+			*w.acqs = append(*w.acqs, acqRow{w.fn, name, true})
 			return held.add(name, true)
 		case "RLock":
+			*w.acqs = append(*w.acqs, acqRow{w.fn, name, false})
 			return held.add(name, false)
 		case "Unlock":
 			return held.drop(name, true)
@@ -412,6 +421,7 @@ func extractAccessTable() {
 	defer l.write()
 	var rows []accessRow
 	var calls []callRow
+	var acqs []acqRow
 	dirs := make([]string, 0, len(accessFields))
 	for d := range accessFields {
 		dirs = append(dirs, d)
@@ -454,7 +464,7 @@ func extractAccessTable() {
 					continue
 				}
 				w := &accessWalker{pi: pi, rel: rel, fn: funcName(pi, fd), tracked: tracked,
-					writes: map[*ast.SelectorExpr]bool{}, rows: &rows, calls: &calls}
+					writes: map[*ast.SelectorExpr]bool{}, rows: &rows, calls: &calls, acqs: &acqs}
 				w.findWrites(fd.Body)
 				w.block(fd.Body.List, nil)
 			}
@@ -463,20 +473,30 @@ func extractAccessTable() {
 	for _, r := range rows {
 		seenField[r.Field] = true
 	}
-	// keep the call rows whose callee touches tracked state directly, or calls (one level) something that does
+	// keep the call rows whose callee touches tracked state directly, or reaches (through at most two
+	// intermediate functions) something that does: enough to justify "helper of a helper" lock claims
 	direct := map[string]bool{}
 	for _, r := range rows {
 		direct[r.Fn] = true
 	}
-	level1 := map[string]bool{}
-	for _, c := range calls {
-		if direct[c.Callee] {
-			level1[strings.TrimSuffix(c.Caller, " (go)")] = true
+	reach := map[string]bool{}
+	for f := range direct {
+		reach[f] = true
+	}
+	for depth := 0; depth < 2; depth++ {
+		next := map[string]bool{}
+		for _, c := range calls {
+			if reach[c.Callee] {
+				next[strings.TrimSuffix(c.Caller, " (go)")] = true
+			}
+		}
+		for f := range next {
+			reach[f] = true
 		}
 	}
 	var keep []callRow
 	for _, c := range calls {
-		if direct[c.Callee] || level1[c.Callee] {
+		if reach[c.Callee] {
 			keep = append(keep, c)
 		}
 	}
@@ -497,6 +517,19 @@ func extractAccessTable() {
 	for _, c := range calls {
 		cs = append(cs, fmt.Sprintf("  ⟨%s, %s, %d, %s⟩", in.ref(c.Callee), in.ref(strings.TrimSuffix(c.Caller, " (go)")), c.Line, locks(c.Locks)))
 	}
+	// lock acquisitions of the functions that occur as callees of the kept call rows (re-entrant locking check)
+	callee := map[string]bool{}
+	for _, c := range calls {
+		callee[c.Callee] = true
+	}
+	var as []string
+	seenAcq := map[acqRow]bool{}
+	for _, a := range acqs {
+		if callee[a.Fn] && !seenAcq[a] {
+			seenAcq[a] = true
+			as = append(as, fmt.Sprintf("  ⟨%s, %s, %s⟩", in.ref(a.Fn), in.ref(a.Lock), lbool(a.Excl)))
+		}
+	}
 	var fields []string
 	for _, dir := range dirs {
 		for _, f := range accessFields[dir] {
@@ -509,6 +542,8 @@ func extractAccessTable() {
 	l.sb.WriteString("structure Call where\n  callee : Nat\n  caller : Nat\n  line : Nat\n  held : List Held\n  deriving Repr\n\n")
 	l.def("rows", "List Access", "[\n"+strings.Join(rs, ",\n")+"]", "every access to a tracked field")
 	l.def("calls", "List Call", "[\n"+strings.Join(cs, ",\n")+"]", "calls to the functions that touch tracked fields (and to their direct callers), with the locks held at the call")
+	l.sb.WriteString("structure Acq where\n  fn : Nat\n  lock : Nat\n  excl : Bool\n  deriving Repr\n\n")
+	l.def("acquires", "List Acq", "[\n"+strings.Join(as, ",\n")+"]", "mutexes the called functions lock themselves (Lock / RLock in their own body)")
 	l.def("fields", "List Nat", "["+strings.Join(fields, ", ")+"]", "the tracked fields")
 	facts["accesstable"] = map[string]any{"rows": rows, "calls": calls}
 	fmt.Printf("extract: C18 %d accesses to %d tracked fields, %d call rows\n", len(rows), len(fields), len(calls))
